@@ -3,6 +3,7 @@ package main
 // Rules added after seed round 5.
 
 import (
+	"go/constant"
 	"go/token"
 	"go/types"
 	"sort"
@@ -166,7 +167,7 @@ func lockCallPath(c *ssa.CallCommon) (kind, path string) {
 }
 
 func init() {
-	register(&Rule{ID: "C11.R6", Props: []string{"C11", "C07"}, Min: 1, Needs: NeedMain,
+	register(&Rule{ID: "C11.R6", Props: []string{"C11", "C07", "C01"}, Min: 1, Needs: NeedMain,
 		Doc: "receive state belongs to one connection: in a receive loop that serves one dialled connection (it takes the net.Conn as a parameter) the stream buffer handed to ParsePackage starts empty in that invocation and is only ever the buffer itself, appended to or re-sliced — it is never loaded from a field of the object that outlives the connection (unframed bytes of a dead connection would be prepended to the stream of the next one, which is then mis-framed and closed although it is healthy)",
 		Run: func(r *R) {
 			n := 0
@@ -834,6 +835,181 @@ func init() {
 					}
 				}
 				r.Check(bad == "", fname(fn), "recover() runs in the deferred function itself", fn.Pos(), "deferred directly", "%s, so its recover() returns nil and the panic is not caught", bad)
+			}
+		}})
+}
+
+func init() {
+	register(&Rule{ID: "C17.R9", Props: []string{"C17"}, Min: 1, Needs: NeedMain,
+		Doc: "a narrowed number was parsed for the narrow type: wherever package conf converts a parsed integer to a narrower integer type (int32(v)), v is the result of strconv.ParseInt with a bit size that fits the target — parsing with Atoi / 64 bits and truncating afterwards turns an out-of-range value into some other number instead of the default",
+		Run: func(r *R) {
+			sp := r.w.Pkg("tars/util/conf")
+			if sp == nil {
+				r.AnchorMissing("package conf")
+				return
+			}
+			for _, fn := range r.w.Funcs(sp) {
+				eachInstr(fn, func(in ssa.Instruction) {
+					cv, ok := in.(*ssa.Convert)
+					if !ok {
+						return
+					}
+					tw, _, isInt := intWidth(cv.Type())
+					sw, _, isInt2 := intWidth(cv.X.Type())
+					if !isInt || !isInt2 || tw >= sw {
+						return
+					}
+					// where does the converted value come from?
+					var src *ssa.Call
+					seen := map[ssa.Value]bool{}
+					var walk func(v ssa.Value, d int)
+					walk = func(v ssa.Value, d int) {
+						if v == nil || d > 8 || seen[v] {
+							return
+						}
+						seen[v] = true
+						switch x := v.(type) {
+						case *ssa.Extract:
+							if c, ok := x.Tuple.(*ssa.Call); ok && x.Index == 0 {
+								switch funcID(calleeObj(&c.Call)) {
+								case "strconv.ParseInt", "strconv.ParseUint", "strconv.Atoi":
+									src = c
+								}
+							}
+						case *ssa.Phi:
+							for _, e := range x.Edges {
+								walk(e, d+1)
+							}
+						case *ssa.Convert:
+							walk(x.X, d+1)
+						case *ssa.UnOp:
+							walk(resolveLocal(x), d+1)
+						}
+					}
+					walk(cv.X, 0)
+					if src == nil {
+						return
+					}
+					okk, why := false, "strconv.Atoi parses a full-width int"
+					if id := funcID(calleeObj(&src.Call)); id != "strconv.Atoi" && len(src.Call.Args) == 3 {
+						if bits, isK := constInt(src.Call.Args[2]); isK && bits != 0 && int(bits) <= tw {
+							okk = true
+						} else {
+							why = "the value is parsed with bit size " + pathOf(src.Call.Args[2])
+						}
+					}
+					r.Check(okk, fname(fn), "narrowing of a parsed integer", in.Pos(), "parsed with the bit size of the target type", "%s and is then cut to %d bits: an out-of-range value wraps around instead of yielding the default", why, tw)
+				})
+			}
+		}})
+
+	register(&Rule{ID: "C18.R5", Props: []string{"C18"}, Min: 1, Needs: NeedMain,
+		Doc: "any spacing: the option list handed to the flag parser in endpoint.Parse is (a slice of) strings.Fields of the input, which splits on every run of white space — splitting on single blanks produces empty or fused tokens at a double blank or a tab, the flag parser stops at the first of them and every later option silently keeps its default",
+		Run: func(r *R) {
+			fn := r.w.Func(endpointPkg, "Parse")
+			if fn == nil {
+				r.AnchorMissing("endpoint.Parse")
+				return
+			}
+			n := 0
+			eachInstr(fn, func(in ssa.Instruction) {
+				c, ok := in.(*ssa.Call)
+				if !ok || funcID(calleeObj(&c.Call)) != "flag.(FlagSet).Parse" || len(c.Call.Args) < 2 {
+					return
+				}
+				n++
+				okk, bad := true, ""
+				seen := map[ssa.Value]bool{}
+				var walk func(v ssa.Value, d int)
+				walk = func(v ssa.Value, d int) {
+					if v == nil || d > 10 || seen[v] {
+						return
+					}
+					seen[v] = true
+					switch x := v.(type) {
+					case *ssa.Phi:
+						for _, e := range x.Edges {
+							walk(e, d+1)
+						}
+					case *ssa.Slice:
+						walk(x.X, d+1)
+					case *ssa.UnOp:
+						if rl := resolveLocal(x); rl != ssa.Value(x) {
+							walk(rl, d+1)
+							return
+						}
+						okk, bad = false, pathOf(v)
+					case *ssa.Call:
+						if id := funcID(calleeObj(&x.Call)); id != "strings.Fields" {
+							okk, bad = false, "the result of "+id
+						}
+					case *ssa.Const:
+					default:
+						okk, bad = false, pathOf(v)
+					}
+				}
+				walk(c.Call.Args[1], 0)
+				r.Check(okk, fname(fn), "options are the white-space separated fields of the input", in.Pos(), "flag arguments come from strings.Fields", "the flag arguments are %s, not strings.Fields of the input: a double blank or a tab between options ends option parsing early", bad)
+			})
+			if n == 0 {
+				r.AnchorMissing("endpoint.Parse: call of (*flag.FlagSet).Parse")
+			}
+		}})
+
+	register(&Rule{ID: "C16.R12", Props: []string{"C16", "C04"}, Min: 3, Needs: NeedTool,
+		Doc: "the ResetDefault emitter resets every kind of member: in genFunResetDefault, for members without an explicit default, each container kind (vector, map, fixed array) and the scalar kinds reach a statement that emits an assignment — a kind whose case emits nothing keeps the previous message's elements when a struct value is reused for decoding",
+		Run: func(r *R) {
+			fn := r.w.Func("gencode", "GenGo.genFunResetDefault")
+			if fn == nil {
+				r.AnchorMissing("gencode.(*GenGo).genFunResetDefault")
+				return
+			}
+			isT := tracker(func(e ssa.Value) bool { return strings.HasSuffix(pathOf(e), ".Type.Type") })
+			var anyT ssa.Value
+			eachInstr(fn, func(in ssa.Instruction) {
+				if v, ok := in.(ssa.Value); ok && anyT == nil && isT(v) {
+					if _, isLoad := v.(*ssa.UnOp); isLoad {
+						anyT = v
+					}
+				}
+			})
+			if anyT == nil {
+				r.AnchorMissing("genFunResetDefault: the member's type kind (v.Type.Type)")
+				return
+			}
+			sets := valueSets(fn, anyT, isT)
+			emits := func(b *ssa.BasicBlock) bool {
+				for _, in := range b.Instrs {
+					if c := callCommon(in); c != nil {
+						if o := calleeObj(c); o != nil && o.Name() == "P" {
+							return true
+						}
+					}
+				}
+				return false
+			}
+			for _, name := range []string{"TVector", "TMap", "TArray", "TBool", "TInt", "TString"} {
+				kv, ok := toolConst(r.w, "token", name)
+				if !ok {
+					r.AnchorMissing("token." + name)
+					continue
+				}
+				k, exact := constant.Int64Val(kv)
+				if !exact {
+					r.AnchorMissing("token." + name)
+					continue
+				}
+				found := false
+				for _, b := range fn.Blocks {
+					s, reached := sets[b]
+					if !reached || !rng(k, k).subsetOf(s) || s.equal(typeRange(anyT.Type())) {
+						continue
+					}
+					if emits(b) {
+						found = true
+					}
+				}
+				r.Check(found, fname(fn), "members of kind "+name+" are reset", fn.Pos(), "an assignment is emitted on the path of this kind", "no statement is emitted for members of kind %s without an explicit default: a reused struct keeps the previous value of such a member when the field is absent", name)
 			}
 		}})
 }
